@@ -66,27 +66,38 @@ def scenarios(ctx):
     # catches up through a snapshot, snapshots locally, dies and restarts from its own store
     for j in range(2 if quick else 8):
         add(n=4 + j % 2, initial=3, conf="lagging", ops=2, opsafter=2)
+    # a node joins the group later (empty log, no peers) and dies at a boundary of one of its first ready cycles -
+    # when all it has stored is a term or a vote, or its first entries - and restarts with the partition's node list
+    jp = ["saved", "advanced", "presave", "ready"] if quick else POINTS
+    for j, p in enumerate(jp):
+        for c in ([1, 2] if quick else [1, 2, 3, 5]):
+            add(n=4, initial=3, conf="joiner", crashnode=4, crashcycle=c, crashpoint=p, ops=3, opsafter=2, snapshotat=(3 if (j + c) % 3 == 0 else 0))
     add(n=1, ops=4, opsafter=0)
     add(n=3, ops=6, follower=True)
     return out
 
 
-def run_one(ctx, sim, i, sc):
+def run_one(ctx, sim, i, sc, timeout=120):
+    """One scenario in a child process.  Returns lines = None when the child had to be killed at the time limit:
+    that is a statement about the machine's load, not about the code (the caller re-runs it alone)."""
     scp = ctx.path("sc-%d.json" % i)
     trp = ctx.path("tr-%d.ndjson" % i)
     json.dump(sc, open(scp, "w"))
     t0 = time.time()
     try:
-        p = subprocess.run([sim, scp, trp], stdout=subprocess.PIPE, stderr=subprocess.PIPE, timeout=120, env=vlib.goenv())
+        p = subprocess.run([sim, scp, trp], stdout=subprocess.PIPE, stderr=subprocess.PIPE, timeout=timeout, env=vlib.goenv())
         rc, err = p.returncode, p.stderr.decode(errors="replace")
     except subprocess.TimeoutExpired:
-        rc, err = -9, "timeout"
+        return i, sc, None, time.time() - t0
     lines = []
     if os.path.exists(trp):
         lines = [x for x in open(trp).read().splitlines() if x.strip()]
     ended = bool(lines) and '"ev":"end"' in lines[-1]
     if rc != 0 or not ended:
         msg = [x for x in err.splitlines() if x.startswith("panic:") or "fatal error" in x or "tocommit" in x]
+        if not msg and rc < 0:
+            # killed by a signal without any word from the Go runtime or the raft library: not the code's doing
+            raise vlib.NoVerdict("raft scenario %d: child killed by signal %d without a panic message" % (i, -rc))
         lines.append(json.dumps({"ev": "panic", "node": 0, "rc": rc, "msg": (msg[0] if msg else err[-300:])[:300]}))
         lines.append(json.dumps({"ev": "end", "converged": 1, "why": "process died"}))
     return i, sc, lines, time.time() - t0
@@ -138,6 +149,14 @@ def run_family(ctx):
         futs = [ex.submit(run_one, ctx, sim, i, sc) for i, sc in enumerate(scs)]
         for f in futs:
             results.append(f.result())
+    # scenarios that hit the time limit (a loaded machine) run again, alone and with a longer limit
+    for k, (i, sc, lines, dt) in enumerate(results):
+        if lines is None:
+            ctx.log("scenario %d hit the time limit after %.0f s: running it again alone" % (i, dt))
+            r = run_one(ctx, sim, i, sc, timeout=300)
+            if r[2] is None:
+                raise vlib.NoVerdict("raft scenario %d does not finish within 300 s even alone: %s" % (i, json.dumps(sc)))
+            results[k] = r
     trace = ctx.path("raft.ndjson")
     starts = []
     with open(trace, "w") as f:
@@ -164,7 +183,13 @@ def run_family(ctx):
         crash = [json.loads(x) for x in all_lines[si[0]:v[0] + 1] if '"ev":"crash"' in x]
         role = {-1: "leader", -2: "follower", 0: "none"}.get(sc["crashnode"], "node")
         sig = "%s@n=%d,crash=%s:%s" % (v[1], sc["n"], role, crash[0]["point"] if crash else "none")
-        if sc.get("conf"):
+        if sc.get("conf") == "joiner":
+            # what the joiner had made durable when it died: nothing at all (it cannot tell a restart from a first
+            # start), or at least a term / vote / entries / a snapshot
+            ci = next((k for k in range(si[0], len(all_lines)) if '"ev":"crash"' in all_lines[k]), len(all_lines))
+            stored = any('"ev":"saved"' in x and json.loads(x).get("node") == sc["crashnode"] for x in all_lines[si[0]:ci])
+            sig = "%s@n=%d,conf=joiner,stored=%s:%s" % (v[1], sc["n"], "some" if stored else "nothing", json.loads(all_lines[v[0]])["ev"])
+        elif sc.get("conf"):
             sig = "%s@n=%d,conf=%s:%s" % (v[1], sc["n"], sc["conf"], json.loads(all_lines[v[0]])["ev"])
         elif sc.get("stepdown"):
             sig = "%s@n=%d,stepdown=%s,crash=%s:%s" % (v[1], sc["n"], sc["stepdown"], role, crash[0]["point"] if crash else "none")
